@@ -6,6 +6,7 @@
 #include "vfh.hxx"
 #include <atomic>
 #include <chrono>
+#include <memory>
 #include <mutex>
 #include <thread>
 #include <time.h>
@@ -111,6 +112,33 @@ int main(int argc, char** argv) {
       const uint64_t h = vf::hash_bytes(&s, sizeof s);
       R.expect("execute", st.c_str(), idx, h, exp == got, [&] {
         vf::J j; j.i("code", s.code).i("child_delay_us", s.child_delay_us).i("sig", s.sig).i("hook_delay_us", s.hook_delay_us)
+            .s("expected", exp).s("observed", got).i("sigchld_handler_runs_during_delay", tl_handler_during);
+        return j.str(); });
+      if (a.only >= 0) break;
+    }
+  } else if (mode == "idle") {
+    // one thread, several managers alive: idle managers created before and/or after the one that executes the command.
+    // Every manager registers its own SIGCHLD callback and all of them are called, in registration order, on every
+    // SIGCHLD: the status must still reach the manager that owns the child (no concurrency is involved here).
+    for (long i = 0; i < a.cases; ++i) {
+      const uint64_t idx = a.only >= 0 ? uint64_t(a.only) : a.gidx(i);
+      vf::Rng g(a.seed, 32, idx);
+      Spec s = gen(g);
+      const int nbefore = g.irange(0, 2), nafter = g.irange(0, 1);
+      if (g.irange(0, 1)) s.hook_delay_us = -2;  // more handler-first schedules
+      std::vector<std::unique_ptr<tfel::system::ProcessManager>> before, after;
+      for (int k = 0; k < nbefore; ++k) before.emplace_back(new tfel::system::ProcessManager());
+      tfel::system::ProcessManager pm;
+      for (int k = 0; k < nafter; ++k) after.emplace_back(new tfel::system::ProcessManager());
+      vf::set_case("execute-with-idle-managers", kind(s), idx);
+      const std::string exp = outcome_expected(s), got = run_one(pm, s);
+      const bool handler_first = tl_handler_during > 0;
+      std::string st = std::string(kind(s)) + (handler_first ? "/sigchld-before-waitpid" : "/waitpid-first") +
+                       (nbefore ? "/idle-manager-created-first" : (nafter ? "/idle-manager-created-after" : "/alone"));
+      const uint64_t h = vf::hash_bytes(&s, sizeof s) ^ (uint64_t(nbefore) << 40) ^ (uint64_t(nafter) << 44);
+      R.expect("execute-with-idle-managers", st.c_str(), idx, h, exp == got, [&] {
+        vf::J j; j.i("code", s.code).i("child_delay_us", s.child_delay_us).i("sig", s.sig).i("hook_delay_us", s.hook_delay_us)
+            .i("idle_managers_created_before", nbefore).i("idle_managers_created_after", nafter)
             .s("expected", exp).s("observed", got).i("sigchld_handler_runs_during_delay", tl_handler_during);
         return j.str(); });
       if (a.only >= 0) break;
